@@ -417,6 +417,17 @@ static void teardown(void)
 
 static int fds_at_start = -1;
 
+/* the "close" op; also performed implicitly when a script ends with the service still up */
+static void do_close(void)
+{
+	int shm_left, fds;
+	printf("op close\n");
+	teardown();
+	shm_left = count_shm();
+	fds = count_fds();
+	printf("r 0 shm_left=%d fds_delta=%d\n", shm_left, fds - fds_at_start);
+}
+
 static int start_service(int shm)
 {
 	struct qb_ipcs_service_handlers sh = { cb_accept, cb_created, cb_msg, cb_closed, cb_destroyed };
@@ -577,6 +588,7 @@ int main(void)
 		size_t L = strlen(line);
 		if (L && line[L - 1] == '\n') line[L - 1] = 0;
 		if (line[0] == '#') {
+			if (svc) do_close();
 			teardown();
 			printf("%s\n", line);
 			fflush(stdout);
@@ -589,6 +601,7 @@ int main(void)
 			const char *t = NEXT(&p);
 			long max = NUM(&p, 8192);
 			int r;
+			if (svc) do_close();
 			teardown();
 			r = do_open(t && !strcmp(t, "shm"), max);
 			printf("op open %s %ld\n", is_shm ? "shm" : "sock", max);
@@ -600,18 +613,14 @@ int main(void)
 		if (!strcmp(op, "serve")) {   /* service only, no client (handshake scripts) */
 			const char *t = NEXT(&p);
 			int r;
+			if (svc) do_close();
 			teardown();
 			r = start_service(t && !strcmp(t, "shm"));
 			printf("op serve %s\nr %d\n", is_shm ? "shm" : "sock", r);
 			continue;
 		}
 		if (!strcmp(op, "close")) {
-			int shm_left, fds;
-			printf("op close\n");
-			teardown();
-			shm_left = count_shm();
-			fds = count_fds();
-			printf("r 0 shm_left=%d fds_delta=%d\n", shm_left, fds - fds_at_start);
+			do_close();
 			continue;
 		}
 		if (!strcmp(op, "hs")) {
@@ -816,6 +825,7 @@ int main(void)
 		}
 		printf("op %s\nr unknown-op\n", op);
 	}
+	if (svc) do_close();
 	teardown();
 	printf("END shm_left=%d fds_delta=%d\n", count_shm(), count_fds() - fds_at_start);
 	fflush(stdout);
